@@ -37,6 +37,16 @@ pub fn run_one(
         if let Some(profile) = props::enga_profile(&property, tier) {
             return crate::enga::run(seed, &profile, &mask, &scratch)
         }
+        if property == "C25" {
+            return crate::engb::run(
+                seed, tier == Tier::Thorough, &mask, &scratch
+            )
+        }
+        if property == "C26" {
+            return crate::enge::run(
+                seed, tier == Tier::Thorough, &mask, &scratch
+            )
+        }
         if let Some(profile) = crate::engc::profile(
             &property, tier == Tier::Thorough
         ) {
